@@ -15,6 +15,7 @@ import KawinV.Model.KWNFull
 import KawinV.Props.C01
 import KawinV.Props.C03
 import KawinV.Props.C05
+import KawinV.Props.C07
 import KawinV.Props.C08
 import Mathlib.Algebra.Order.Field.Rat
 import Mathlib.Tactic.NormNum
@@ -861,6 +862,34 @@ theorem runSteps_good (c : Cfg α) (tf dtminS : α) :
       · simp at h
       · next o ho => exact runSteps_good c tf dtminS rest o.st s' _ m' (anyStep_good c s tf dtminS m au o hg ho) h
     · simp only [Option.some.injEq, Prod.mk.injEq] at h; rw [← h.1]; exact hg
+
+/-! ### the state an Euler step hands to `postProcess` is non-negative — unconditionally (C07's clause inside KWN runs) -/
+
+theorem fn_nonneg (x : List α) (hx : ∀ v ∈ x, 0 ≤ v) (j : Nat) : 0 ≤ fn x j := by
+  unfold fn
+  rw [List.getD_eq_getElem?_getD]
+  cases h : x[j]? with
+  | none => simp
+  | some v => simp only [Option.getD_some]; exact hx v (List.mem_of_getElem? h)
+
+/-- for ANY growth field, any grid widths, any nucleation radius and non-negative rate and any positive step: when the
+fluxes are computed from, limited against and added to the same non-negative distribution (an Euler step whose stored
+distribution is already thresholded — every step of a single-phase run), no class of the new state is negative.  No
+hypothesis about the step limit: this is the repaired `correctdXdtEuler` (total-outflow limiter, /repo f9a39e6). -/
+theorem advanceStage_nonneg (ps : PhaseSt α) (x : List α) (yp : PSlice α) (dt : α) (hdt : 0 < dt)
+    (hx : ∀ v ∈ x, 0 ≤ v) (hlen : x.length = ps.grid.bins) (hr : 0 ≤ yp.nucRate) :
+    ∀ v ∈ advanceStage ps x x x yp dt, 0 ≤ v := by
+  intro v hv
+  unfold advanceStage at hv
+  simp only at hv
+  rw [List.mem_map] at hv
+  obtain ⟨i, hi, rfl⟩ := hv
+  rw [List.mem_range] at hi
+  have := C07.corrected_update_nonneg_pbm ps.grid.bins dt (fn ps.growth) (fn x) (fn (Grid.widths ps.grid.bounds)) i
+    (by omega) (nucIdxOf ps yp.Rnuc) yp.nucRate hr hdt (fn_nonneg x hx)
+  unfold faceFlux
+  linarith [this, mul_comm dt (PBM.dXdt (PBM.correctedFlux ps.grid.bins dt (fn x)
+    (PBM.netFlux ps.grid.bins (fn ps.growth) (fn x) (fn (Grid.widths ps.grid.bounds)))) (nucIdxOf ps yp.Rnuc) yp.nucRate i)]
 
 /-! ### non-vacuity
 
